@@ -360,13 +360,24 @@ def r5_exact_lookup_first(ctx, rule_id='R-C15.5'):
                     key='no-exact-lookup')
         return
     res = exact[0].ast.targets[0]
-    none_tests = [t for t in g.nodes if t.kind == 'test' and
-                  isinstance(t.ast, ast.Compare) and
-                  unparse(t.ast.left) == unparse(res) and
-                  isinstance(t.ast.ops[0], ast.Is) and
-                  unparse(t.ast.comparators[0]) == 'None']
+    # `res is None` (true edge) / `res is not None`, `res` (false edge)
+    none_tests = []
+    for t in g.nodes:
+        if t.kind not in ('test', 'operand') or t.ast is None:
+            continue
+        a, neg = t.ast, False
+        while isinstance(a, ast.UnaryOp) and isinstance(a.op, ast.Not):
+            a, neg = a.operand, not neg
+        if isinstance(a, ast.Compare) and len(a.ops) == 1 and \
+                unparse(a.left) == unparse(res) and \
+                unparse(a.comparators[0]) == 'None' and \
+                isinstance(a.ops[0], (ast.Is, ast.IsNot, ast.Eq, ast.NotEq)):
+            is_none = isinstance(a.ops[0], (ast.Is, ast.Eq))
+            none_tests.append((t, 'T' if is_none != neg else 'F'))
+        elif unparse(a) == unparse(res):
+            none_tests.append((t, 'T' if neg else 'F'))
     ok = legacy and all(
-        any(g.guarded_by(l, t, 'T') for t in none_tests) and
+        any(g.guarded_by(l, t, lab) for t, lab in none_tests) and
         g.dominates(exact[0], l) for l in legacy)
     if ok:
         ctx.ok(f, 'the legacy-label alias is consulted only when the exact '
